@@ -169,7 +169,8 @@ impl Bytes {
     }
 
     pub fn to_formal_string(&self) -> String {
-        pybytes_repr(&self._b, true, false)
+        // The reader treats a backslash as an escape, so it must be written escaped.
+        pybytes_repr(&self._b, true, true)
     }
 
     pub fn pybytes(&self) -> String {
